@@ -763,13 +763,22 @@ def G8(ctx: Ctx) -> RuleResult:
     else:
         r.ok('hpl_file: one or more hpl_property children, in source order')
     # source order: the list rule (if any) is left- or right-recursive with the single property on the other side, never reordered by lark
-    items = {e.symbols[0][0] for e in v.rules_of('_metadata_item') if len(e.symbols) == 1}
+    # the kinds of annotation: the alternatives reachable from the item list, each named by its callback (a rule of its
+    # own, or an alternative of one rule with an alias) and keyed by its leading keyword
     keys = {}
-    for it in items:
-        for e in v.rules_of(it):
-            first = e.symbols[0][0]
+    seen_nt: Set[str] = set()
+    todo = [n_ for e in v.rules_of('_metadata_items') for n_, is_t, _ in e.symbols if not is_t and n_ != '_metadata_items']
+    while todo:
+        nt = todo.pop()
+        if nt in seen_nt:
+            continue
+        seen_nt.add(nt)
+        for e in v.rules_of(nt):
+            first = e.symbols[0][0] if e.symbols else None
             if first in v.terminals and v.terminals[first].kind == 'str':
-                keys[it] = v.terminals[first].value
+                keys[e.callback] = v.terminals[first].value
+            elif len(e.symbols) == 1 and not e.symbols[0][1]:
+                todo.append(e.symbols[0][0])
     if keys == {'metadata_id': 'id', 'metadata_title': 'title', 'metadata_desc': 'description'}:
         r.ok(f'metadata keys: {keys}')
     else:
